@@ -21,10 +21,11 @@
  * operator-> / operator* on an EMPTY shared_ptr are obligations: use CV_SP_DEFINE_ACCESS in the spec for each instantiation.
  * Trusted base. */
 struct cv_sp_cb { cv_i64 strong; cv_i64 reserved; };
+struct cv_sp_block { struct cv_sp_cb cb; CV_SP_POINTEE obj; };     /* typed view of the one allocation */
 #define CV_SP_HDR        (sizeof(struct cv_sp_cb))
-#define CV_SP_BLOCK_SIZE (CV_SP_HDR + sizeof(CV_SP_POINTEE))
+#define CV_SP_BLOCK_SIZE (sizeof(struct cv_sp_block))
 #define CV_SP_CB(cnt)    ((struct cv_sp_cb *)(cnt)->_M_pi)
-#define CV_SP_OBJ(cb)    ((CV_SP_POINTEE *)((cv_i8 *)(cb) + CV_SP_HDR))
+#define CV_SP_OBJ(cb)    (&((struct cv_sp_block *)(cb))->obj)
 void CV_SP_DISPOSE(CV_SP_POINTEE *);
 
 unsigned gh_sp_made;       /* control blocks created (make_shared calls)                          */
@@ -56,7 +57,7 @@ static void cv_sp_release(struct cv_sp_cb *cb) {
   }
 }
 static struct cv_sp_cb *cv_sp_alloc(void) {
-  struct cv_sp_cb *cb = malloc(CV_SP_BLOCK_SIZE); __CPROVER_assume(cb != 0);
+  struct cv_sp_cb *cb = (struct cv_sp_cb *)(struct cv_sp_block *)malloc(sizeof(struct cv_sp_block)); __CPROVER_assume(cb != 0);
   gh_allocs++; gh_sp_made++;
   cb->strong = 1; cb->reserved = 0;
   return cb;
